@@ -96,6 +96,12 @@ CHECKS = {
             dict(harness="C07_Blank"),
         ],
     },
+    "C09": {
+        "quick": [
+            dict(harness="C09_Layout", cover=["extra-blank", "continuation", "newline-for-semicolon", "comment-before-newline", "blank-line", "comment-line", "comment-at-end"],
+                 bounds="25 layout templates (every construct) x every marked token boundary x {extra blank, tab, backslash-newline, newline for ;, comment before newline, blank line, comment line, comment/newline/blank at end}; inserted blanks and comment text (2 runes over D) symbolic"),
+        ],
+    },
     "C10": {
         "quick": [
             dict(harness="C10_F2", cover=["fault", "fault-not-reached"], bounds="all 2-rune inputs over D x every fault position k in [0,2] (k symbolic)"),
@@ -249,6 +255,8 @@ META = {
                 note="outputs are shorter than bufio's 4096-byte buffer, so the writer sees one Write at Flush (the multi-flush path is not exercised); trees with a lone trailing backslash are checked for purity/determinism only (see KF-C05-lone-backslash)"),
     "C07": dict(text="Metamorphic stream check on every path within the bounds: if A alone is accepted and fully consumed, then on the stream A<newline>B the first call returns exactly A's commands and comments and leaves the scanner at the first character of B, and the second call returns B and consumes it through its newline; blank lines give empty results and consume one line. " + BOUNDED,
                 note="A ranges over bounded inputs/templates; B is one fixed simple command; A ending in a backslash or line continuation and comment-only lines (skipped together with following blank lines, as the repository's tests pin) are excluded"),
+    "C09": dict(text="Metamorphic check: for every layout template, every marked boundary and every transformation kind, with symbolic inserted characters, the transformed text is accepted, has the same skeleton (; and newline identified) as the untransformed one, and returns the added comment exactly once with its text. " + BOUNDED,
+                note="one transformation at a time; boundaries are the hand-marked ones of 25 templates (blanks between tokens, ';' separators, newlines where the grammar has linebreak); continuations inside words are excluded as the property says"),
     "C10": dict(text="The fault position is a solver variable: for every position at which the RuneScanner (or io.Reader) starts failing during the call, ParseCommands returns a non-nil error that is the injected error, on every feasible path within the bounds. " + BOUNDED,
                 note="single persistent fault (once failing, always failing); faults that only a goroutine left behind after the return would hit are not counted (that is C06); deterministic baton schedule"),
     "C11": dict(text="Eval agrees with a C reference evaluator (precedence, associativity, laziness, effects on a map store, faults) for every 64-bit value of the symbolic operands on all shapes within the bounds; value obligations are discharged as identical terms or by z3. " + BOUNDED,
